@@ -76,6 +76,7 @@ func judgeSession(c SessCase) (string, int, []string) {
 	want := ""
 	faulted := false
 	bodyAtFault := ""
+	wantAfter := "" // what the operations after a one-off fault must add to the body
 	for _, op := range c.Ops {
 		wasFailed := r.failed
 		var oerr error
@@ -87,6 +88,9 @@ func judgeSession(c SessCase) (string, int, []string) {
 			oerr = sess.Send(opMsg(op))
 			if oerr == nil {
 				want += enc
+				if faulted {
+					wantAfter += enc
+				}
 			}
 		}
 		if r.failed && !wasFailed {
@@ -139,6 +143,9 @@ func judgeSession(c SessCase) (string, int, []string) {
 	}
 	if faulted && !strings.HasPrefix(wantFull(c.Ops), bodyAtFault) {
 		return v("the body written before the fault is not a prefix of the sent messages", "body %q", bodyAtFault)
+	}
+	if faulted && string(r.body) != bodyAtFault+wantAfter {
+		return v("after a failed operation the later messages do not arrive as exactly their own encodings", "body %q; at the fault it was %q, the messages sent successfully afterwards encode to %q (a message whose Send failed was reported as not sent: nothing of it may follow later)", r.body, bodyAtFault, wantAfter)
 	}
 	return "", r.calls, r.log
 }
